@@ -176,6 +176,15 @@ func GetUserMailboxesPerUser(db *sql.DB, userID int64) ([]string, error) {
 	return mailboxes, rows.Err()
 }
 
+// childNameRange returns the half-open range [lo, hi) that contains exactly the
+// names starting with name + "/" under SQLite's default BINARY (bytewise,
+// case-sensitive) comparison: '0' is the byte that follows '/'. Unlike
+// name LIKE name||'/%' it does not treat '_' and '%' in the name as
+// wildcards and does not fold ASCII case.
+func childNameRange(name string) (lo, hi string) {
+	return name + "/", name + "0"
+}
+
 func DeleteMailboxPerUser(db *sql.DB, userID int64, mailboxName string) error {
 	// Cannot delete INBOX
 	if strings.ToUpper(mailboxName) == "INBOX" {
@@ -199,8 +208,8 @@ func DeleteMailboxPerUser(db *sql.DB, userID int64, mailboxName string) error {
 	}
 
 	// Also check for hierarchical children by naming convention (mailboxName/*)
-	hierarchyPattern := mailboxName + "/%"
-	err = db.QueryRow("SELECT COUNT(*) FROM mailboxes WHERE user_id = ? AND name LIKE ?", userID, hierarchyPattern).Scan(&count)
+	childLo, childHi := childNameRange(mailboxName)
+	err = db.QueryRow("SELECT COUNT(*) FROM mailboxes WHERE user_id = ? AND name >= ? AND name < ?", userID, childLo, childHi).Scan(&count)
 	if err != nil {
 		return err
 	}
@@ -297,8 +306,8 @@ func RenameMailboxPerUser(db *sql.DB, userID int64, oldName, newName string) err
 	}
 
 	// Rename all hierarchical children
-	hierarchyPattern := oldName + "/%"
-	rows, err := tx.Query("SELECT id, name FROM mailboxes WHERE user_id = ? AND name LIKE ?", userID, hierarchyPattern)
+	childLo, childHi := childNameRange(oldName)
+	rows, err := tx.Query("SELECT id, name FROM mailboxes WHERE user_id = ? AND name >= ? AND name < ?", userID, childLo, childHi)
 	if err != nil {
 		return err
 	}
